@@ -19,7 +19,8 @@ TRUSTED = ["Model/Transcript.lean is hand-written; tied to gene/transcript.py, g
            "location_impl.py (gap_list) by this run's correspondence",
            "harness/shims.py (gene.transcript imports io modules that need the marshmallow shim)"]
 ASSUMPTIONS = ["exon and CDS lists are passed in ascending order (as every parser of the library produces them)",
-               "whole-chromosome parent (sequence length >= every coordinate) or no parent; chunk-relative views are C07",
+               "whole-chromosome parent (sequence length >= every coordinate), no parent, or a sequence-chunk parent "
+               "(seq_chunk_to_parent) for the k*/cr* ops; codons / sequences / identity on chunks are C07",
                "CDS frames are irrelevant to coordinate conversion (built with construct_frames_from_location)"]
 MODEL_OPS = None
 
@@ -165,6 +166,56 @@ def interval_lines(plen, st, exons, cds, G):
         yield f"ci2d {tx} 0 1 +"
 
 
+def chunk_lines(plen, st, exons, cds, ws, we, wst, rng, twin_ops=True):
+    """ops on the transcript built on the chunk [ws, we) (strand wst) of a chromosome of length plen"""
+    k = f"{enc_tx(plen, st, exons, cds)} {ws} {we} {wst}"
+    L = sum(e - s for s, e in exons)
+    hi = max(e for _, e in exons) + 1
+    wl = we - ws
+    yield f"cr2t {k} -1 {wl}"
+    yield f"t2cr {k} -1 {L}"
+    yield f"kloc {k}"
+    if cds is not None:
+        Ld = sum(e - s for s, e in cds)
+        yield f"cr2d {k} -1 {wl}"
+        yield f"d2cr {k} -1 {Ld}"
+        yield f"kutr5 {k}"
+        yield f"kutr3 {k}"
+        yield f"kcdsloc {k}"
+    if twin_ops:
+        # chromosome-level methods of the chunk-built twin: must answer as the chromosome-built transcript does
+        yield f"kc2t {k} -1 {hi}"
+        yield f"kt2c {k} -1 {L}"
+        if cds is not None:
+            yield f"kc2d {k} -1 {hi}"
+            yield f"kd2t {k} -1 {Ld}"
+            yield f"kt2d {k} -1 {L}"
+            yield f"kd2c {k} -1 {Ld}"
+    elif cds is None:
+        yield f"kutr5 {k}"
+        yield f"cr2d {k} -1 1"
+
+
+def chunk_interval_lines(plen, st, exons, cds, ws, we, wst):
+    k = f"{enc_tx(plen, st, exons, cds)} {ws} {we} {wst}"
+    L = sum(e - s for s, e in exons)
+    wl = we - ws
+    for s in range(0, wl + 1):
+        for e in range(s, wl + 2):
+            for ist in "+-":
+                yield f"cri2t {k} {s} {e} {ist}"
+                if cds is not None:
+                    yield f"cri2d {k} {s} {e} {ist}"
+    for a in range(0, L + 1):
+        for b in range(a, L + 1):
+            for ist in "+-":
+                yield f"ti2cr {k} {a} {b} {ist}"
+                if cds is not None:
+                    yield f"di2cr {k} {a} {b} {ist}"
+    yield f"kci2t {k} 0 {plen + 3} +"
+    yield f"cri2t {k} -1 1 +"
+
+
 def random_tx(rng, max_exons=8, scale=60):
     k = rng.randint(1, max_exons)
     pos = rng.randint(0, scale // 3)
@@ -241,6 +292,31 @@ def cases(run):
                         b = rng.randint(a + 1, L)
                         cds = cds_blocks(exons, st, a, b)
                     yield from interval_lines(plen, st, exons, cds, G)
+    # ---- transcripts built on a sequence chunk: EVERY chunk window (both chunk strands) on a small scope
+    kG = 4 if quick else 6
+    kk = 2
+    EXHAUSTIVE_NOTE += (f"; chunk-built transcripts: <= {kk} exons on a genome of length {kG} (chromosome length {kG + 2}), both "
+                        "strands, EVERY CDS placement + non-coding, built on EVERY chunk window [ws,we) of the chromosome on "
+                        "both chunk strands: every chunk position, every in-chunk transcript / CDS position, both UTRs, the "
+                        "two chunk-relative locations, and the chromosome-level conversions of the chunk-built twin"
+                        + "; every chunk / transcript / CDS interval for a 1-in-150 sample")
+    for exons in structures(kk, kG, False):
+        L = sum(e - s for s, e in exons)
+        plen = kG + 2
+        for st in "+-":
+            placements = [None] + [cds_blocks(exons, st, a, b) for a in range(L) for b in range(a + 1, L + 1)]
+            for cds in placements:
+                for ws in range(0, plen):
+                    for we in range(ws + 1, plen + 1):
+                        for wst in "+-":
+                            run.count("chunk:windows")
+                            cut = ws > exons[0][0] or we < exons[-1][1]
+                            run.count("chunk:cuts-transcript" if cut else "chunk:contains-transcript")
+                            yield from chunk_lines(plen, st, exons, cds, ws, we, wst, rng,
+                                                   twin_ops=True)
+                            if rng.random() < 1 / 150:
+                                run.count("chunk:interval-samples")
+                                yield from chunk_interval_lines(plen, st, exons, cds, ws, we, wst)
     run.exhaustive = True
 
     # ---- random larger transcripts
@@ -326,6 +402,27 @@ def cases(run):
             yield f"rt_dc {tx} {lo} {hi}"
         for op in ("utr5", "utr3", "introns", "span", "exloc", "cdsloc"):
             yield f"{op} {tx}"
+        if st != "." and plen is not None and rng.random() < 0.7:
+            # the same transcript on a random chunk (containing it, cutting it, or missing it)
+            mode = rng.random()
+            if mode < 0.35:
+                ws, we = rng.randint(0, exons[0][0]), rng.randint(top, plen)
+            else:
+                ws = rng.randint(0, max(0, plen - 1))
+                we = rng.randint(ws + 1, plen)
+            if we > ws:
+                run.count("rand:chunk")
+                yield from chunk_lines(plen, st, exons, cds, ws, we, rng.choice("+-"), rng)
+                k = f"{tx} {ws} {we} {rng.choice('+-')}"
+                for _ in range(2):
+                    a = rng.randint(0, we - ws)
+                    b = rng.randint(a, we - ws + (1 if rng.random() < 0.1 else 0))
+                    yield f"cri2t {k} {a} {b} {rng.choice('+-')}"
+                    yield f"cri2d {k} {a} {b} {rng.choice('+-')}"
+                    a = rng.randint(0, L)
+                    b = rng.randint(a, L)
+                    yield f"ti2cr {k} {a} {b} {rng.choice('+-')}"
+                    yield f"di2cr {k} {a} {b} {rng.choice('+-')}"
         for _ in range(4):
             s = rng.randint(0, top + 1)
             e = rng.randint(s, top + 3)
